@@ -199,8 +199,9 @@ FRESH = Val(arr=True)
 class Program:
     """all inventoried + helper modules, parsed"""
 
-    def __init__(self, repo: Path, modules: list[str]):
+    def __init__(self, repo: Path, modules: list[str], src: str = "src"):
         self.repo = repo
+        self.src = src      # directory under `repo` holding the packages (the regression cases live directly in theirs)
         self.mods = {}      # dotted module name -> ast.Module
         self.funcs = {}     # (module, name) -> FunctionDef
         self.classes = {}   # (module, name) -> ClassDef
@@ -212,10 +213,10 @@ class Program:
             self.load(m)
 
     def path(self, mod: str) -> Path | None:
-        p = self.repo / "src" / (mod.replace(".", "/") + ".py")
+        p = self.repo / self.src / (mod.replace(".", "/") + ".py")
         if p.exists():
             return p
-        p = self.repo / "src" / mod.replace(".", "/") / "__init__.py"
+        p = self.repo / self.src / mod.replace(".", "/") / "__init__.py"
         return p if p.exists() else None
 
     def load(self, mod: str):
@@ -1507,10 +1508,10 @@ INVENTORY_MODULES = [
 ]
 
 
-def inventory(prog: Program):
+def inventory(prog: Program, modules=None):
     """every public function and method of the inventoried modules: (qualified name, module, fn, cls_key, constructor)"""
     out = []
-    for mod in INVENTORY_MODULES:
+    for mod in (INVENTORY_MODULES if modules is None else modules):
         tree = prog.mods.get(mod)
         if tree is None:
             continue
@@ -1533,11 +1534,11 @@ def inventory(prog: Program):
     return out
 
 
-def translate_all(repo: Path):
-    prog = Program(repo, INVENTORY_MODULES)
+def translate_all(repo: Path, modules=None, src="src"):
+    prog = Program(repo, INVENTORY_MODULES if modules is None else modules, src)
     tr = Translator(prog)
     res = []
-    for qual, mod, fn, cls_key, ctor in inventory(prog):
+    for qual, mod, fn, cls_key, ctor in inventory(prog, modules):
         sc_np, pnames, ir = tr.translate(mod, fn, cls_key, ctor)
         res.append({"name": qual, "np": sc_np, "params": pnames, "ir": ir, "diag": list(tr.diag),
                     "kind": "constructor" if ctor else ("method" if cls_key else "function")})
